@@ -125,6 +125,8 @@ fn data_strategy(tier: Tier) -> BoxedStrategy<Vec<u8>> {
         // the marker in another letter case is not the marker
         b"$NETBSD$", b"$netbsd: x $", b"+CPPFLAGS+= -I$NETBSDSRCDIR/sys", b"$NetBsD", b"$nETbsd",
         b"dos line\r", b"$NetBSD$\r", b"a\rb",
+        // the marker on a line that is not valid UTF-8
+        b"$NetBSD: x,v 1.1 j\xf6rg Exp $", b"\x80$NetBSD", b"$NetBSD\xc3", b"\xff $NetBSD$ \xfe", b"$NetBSD\xed\xa0\x80",
         // the bare marker, alone and at either end of a line
         b"$NetBSD", b"$NetBSD", b"x $NetBSD", b"$NetBSD x", b"$", b"$N", b"$NetBS", b"NetBSD lacks this", b"$$NetBSD",
     ]);
